@@ -35,7 +35,7 @@ inductive Err
   | incomplete                  -- all segments consumed, request not complete: nothing forwarded yet
   | notProxy                    -- http_handler_protocol is not HTTP_PROXY (→ 400)
   | tunnel                      -- CONNECT: a tunnel is established, no request is forwarded
-  | noHost                      -- `if host and port` fails in connect_upstream
+  | noHost                      -- `if host and port` fails / host is not UTF-8 in connect_upstream
   | build (e : Px.Build.Err)
   deriving DecidableEq, Repr
 
@@ -93,6 +93,7 @@ def emitFirst (cfg : Cfg) (p : Parser) : Except Err Bytes :=
   if !isProxyRequest p then .error .notProxy
   else if p.isTunnel then .error .tunnel
   else if (p.host.getD []).isEmpty then .error .noHost
+  else if !Px.Url.utf8Valid (p.host.getD []) then .error .noHost     -- `text_(host)` raises in connect_upstream
   else buildFor cfg (treatFirst cfg p)
 
 /-- what a completely received follow-up request is turned into -/
